@@ -9,18 +9,6 @@
 From Coq Require Import List ZArith String Bool Arith.
 Require Import OV.Match.Pattern.
 Import ListNotations.
-Local Open Scope string_scope.
-
-Inductive res (A : Type) := Ok (a : A) | Fail | Err.
-Arguments Ok {A} a.
-Arguments Fail {A}.
-Arguments Err {A}.
-
-Definition rbind {A B} (r : res A) (f : A -> res B) : res B :=
-  match r with Ok a => f a | Fail => Fail | Err => Err end.
-Notation "x <- r ;; k" := (rbind r (fun x => k)) (at level 61, r at next level, right associativity).
-
-Definition of_opt {A} (o : option A) : res A := match o with Some a => Ok a | None => Fail end.
 
 (* ------------------------------------------------------------------ state: MatchResult *)
 (* PartialMatchResult: _bindings, _value_bindings, _node_bindings, _matched_nodes (newest first) *)
@@ -37,15 +25,31 @@ Record stack := mkS { top : partial; below : list partial }.
 Definition init_stack := mkS empty_partial [].
 Definition all_partials (st : stack) : list partial := top st :: below st.
 
-(* what PartialMatchResult.merge copies.  The pinned source copies _bindings and _matched_nodes only;
-   the flags say whether _value_bindings / _node_bindings are copied as well. *)
-Record flags := mkF { keep_vb : bool; keep_nb : bool }.
-Definition flags_as_pinned := mkF false false.
-Definition flags_fixed := mkF true true.
+(* Soft st: the Python returned False *without* marking the match as failed (state st) *)
+Inductive res (A : Type) := Ok (a : A) | Fail | Err | Soft (st : stack).
+Arguments Ok {A} a.
+Arguments Fail {A}.
+Arguments Err {A}.
+Arguments Soft {A} st.
 
-Definition all_b (st : stack) := concat (map pb (all_partials st)).
-Definition all_vb (st : stack) := concat (map pvb (all_partials st)).
-Definition all_nb (st : stack) := concat (map pnb (all_partials st)).
+Definition rbind {A B} (r : res A) (f : A -> res B) : res B :=
+  match r with Ok a => f a | Fail => Fail | Err => Err | Soft st => Soft st end.
+Notation "x <- r ;; k" := (rbind r (fun x => k)) (at level 61, r at next level, right associativity).
+
+Definition of_opt {A} (o : option A) : res A := match o with Some a => Ok a | None => Fail end.
+
+
+(* what PartialMatchResult.merge copies.  The pinned source copies _bindings and _matched_nodes only;
+   the flags say whether _value_bindings / _node_bindings are copied as well.
+   `out_fail`: whether _match_node marks the match as failed when the pattern node has more outputs than
+   the graph node (the pinned source only returns False, leaving a truthy MatchResult). *)
+Record flags := mkF { keep_vb : bool; keep_nb : bool; out_fail : bool }.
+Definition flags_as_pinned := mkF false false false.
+Definition flags_fixed := mkF true true true.
+
+Definition all_b (st : stack) := List.concat (map pb (all_partials st)).
+Definition all_vb (st : stack) := List.concat (map pvb (all_partials st)).
+Definition all_nb (st : stack) := List.concat (map pnb (all_partials st)).
 
 Definition lookup_b (x : string) (st : stack) : option bval := assoc String.eqb x (all_b st).
 Definition lookup_vb (k : vkey) (st : stack) : option (option vid) := assoc vkey_eqb k (all_vb st).
@@ -107,7 +111,7 @@ Definition attr_const_matches (pat attr : attrval) : option bool :=
   match attr, pat with
   | AInts l, AInts l' => Some (list_eqb Z.eqb l l')
   | AInts l, AInt _ => None
-  | AInts l, AStr s => Some (match l with [] => String.eqb s "" | _ => false end)
+  | AInts l, AStr s => Some (match l with [] => String.eqb s ""%string | _ => false end)
   | AInt a, AInt b => Some (Z.eqb a b)
   | AStr a, AStr b => Some (String.eqb a b)
   | _, _ => Some false
@@ -172,7 +176,7 @@ Fixpoint dispatch (alts : list (Z * (pid * nat))) (id : string * string) : optio
   | [] => None
   | (tag, (q, i)) :: t =>
       match nth_error pnodes_tbl q with
-      | Some np => match np_opid np with
+      | Some np => match np_opid_decl np with
                    | Some id' => if opid_eqb id id' then Some (tag, (q, i)) else dispatch t id
                    | None => dispatch t id
                    end
@@ -214,7 +218,7 @@ Fixpoint match_value (pv : vpat) (v : option vid) (st : stack) {struct pv} : res
          | (tag, alt) :: t =>
              match match_value alt v (push st1) with
              | Ok st2 => st3 <- bind_tag tagv tag st2 ;; merge fl st3
-             | Fail => try t                           (* abandon_current_match *)
+             | Fail | Soft _ => try t                  (* abandon_current_match *)
              | Err => Err
              end
          end) alts
@@ -263,7 +267,7 @@ Fixpoint bind_outputs (p : pid) (names : list (option string)) (outs : list vid)
   | [] => Ok st
   | name :: t =>
       match outs with
-      | [] => Fail                                      (* i >= len(node.outputs) *)
+      | [] => if out_fail fl then Fail else Soft st     (* i >= len(node.outputs): `return False` *)
       | o :: outs' => st1 <- of_opt (bind_value name (KOut p i) (Some o) st) ;; bind_outputs p t outs' (S i) st1
       end
   end.
@@ -279,7 +283,7 @@ Fixpoint match_node (fuel : nat) (p : pid) (n : nid) (st : stack) : res stack :=
           | Some np, Some h =>
               st1 <- node_local np h st ;;
               let st2 := bind_node p n st1 in
-              if (length (np_ins np) <? length (h_ins h)) && negb (np_other_ins np) then Fail else
+              if (List.length (np_ins np) <? List.length (h_ins h)) && negb (np_other_ins np) then Fail else
               st3 <- match_inputs (match_node f) (np_ins np) (h_ins h) st2 ;;
               bind_outputs p (np_outs np) (h_outs h) 0 st3
           | _, _ => Err
@@ -309,7 +313,7 @@ Fixpoint roots_from (tbl : list npat) (outs : list vpat) (covered roots : list p
   | [] => rev roots
   | POut q _ :: t =>
       if memb Nat.eqb q covered then roots_from tbl t covered roots
-      else roots_from tbl t (slice tbl (S (length tbl)) q covered) (q :: roots)
+      else roots_from tbl t (slice tbl (S (List.length tbl)) q covered) (q :: roots)
   | _ :: t => roots_from tbl t covered roots
   end.
 Definition output_nodes (p : gpat) : list pid := roots_from (gp_nodes p) (gp_outs p) [] [].
@@ -335,7 +339,7 @@ Definition output_value (tbl : list npat) (st : stack) (pv : vpat) : option bval
     | None => option_map bv (assoc vkey_eqb k (pvb (top st)))
     end in
   match pv with
-  | PAny => option_map bv (assoc vkey_eqb (KObj 0) [])           (* never bound *)
+  | PAny => None                                             (* AnyValue is never bound *)
   | PVar x _ => assoc String.eqb x (pb (top st))
   | PConst k _ => by_name_or_key None (KObj k)
   | POut p i => by_name_or_key (out_name tbl p i) (KOut p i)
@@ -372,7 +376,7 @@ Record matched := mkM {
   m_vb : list (vkey * option vid)
 }.
 
-Definition fuel_for (p : gpat) : nat := S (length (gp_nodes p)).
+Definition fuel_for (p : gpat) : nat := S (List.length (gp_nodes p)).
 
 (* _multi_match for one candidate tuple (also _match_single_output_node when there is one root) *)
 Fixpoint match_roots (fl : flags) (g : hgraph) (p : gpat) (roots : list pid) (cand : list nid) (st : stack) : res stack :=
@@ -394,8 +398,20 @@ Definition finish (g : hgraph) (p : gpat) (removable : bool) (st : stack) : res 
       end
   end.
 
+(* a `False` that never marked the match as failed leaves a truthy MatchResult: it is returned as a match,
+   with the bindings and nodes collected so far and no outputs *)
 Definition try_candidate (fl : flags) (g : hgraph) (p : gpat) (removable : bool) (cand : list nid) : res matched :=
-  st <- match_roots fl g p (output_nodes p) cand init_stack ;; finish g p removable st.
+  match match_roots fl g p (output_nodes p) cand init_stack with
+  | Ok st => finish g p removable st
+  | Soft st =>
+      if out_fail fl then Err else                       (* Soft is produced only when out_fail is false *)
+      match below st with
+      | [] => Ok (mkM (fill_inputs (gp_inputs p) (pb (top st))) (rev (pnodes (top st))) [] (pnb (top st)) (pvb (top st)))
+      | _ :: _ => Err
+      end
+  | Fail => Fail
+  | Err => Err
+  end.
 
 (* candidates for the 2nd.. output node: nodes of the graph with the same op identifier, graph order *)
 Fixpoint nodes_with_opid (ns : list hnode) (n : nid) (id : option (string * string)) (g : hgraph) : list nid :=
@@ -405,6 +421,16 @@ Fixpoint nodes_with_opid (ns : list hnode) (n : nid) (id : option (string * stri
       let own := match h_outs h with o :: _ => negb (foreign g o) | [] => true end in
       (if own && match id with Some i => opid_eqb (h_opid h) i | None => true end then [n] else [])
       ++ nodes_with_opid t (S n) id g
+  end.
+
+(* get_nodes for the 2nd.. output nodes.  Pattern nodes without an op identifier all receive the one
+   shared iterator `all_nodes`; itertools.product drains it for the first of them, so the later ones
+   get no candidate at all (`used` = the iterator has been consumed). *)
+Fixpoint candidate_lists (ns : list hnode) (g : hgraph) (ids : list (option (string * string))) (used : bool) : list (list nid) :=
+  match ids with
+  | [] => []
+  | Some i :: t => nodes_with_opid ns 0 (Some i) g :: candidate_lists ns g t used
+  | None :: t => (if used then [] else nodes_with_opid ns 0 None g) :: candidate_lists ns g t true
   end.
 
 (* itertools.product in lexicographic order *)
@@ -421,6 +447,7 @@ Fixpoint first_ok (fl : flags) (g : hgraph) (p : gpat) (removable : bool) (cands
               | Ok m => Ok m
               | Fail => first_ok fl g p removable t
               | Err => Err
+              | Soft st => Soft st
               end
   end.
 
@@ -430,27 +457,31 @@ Definition run (fl : flags) (p : gpat) (g : hgraph) (root : nid) (removable : bo
   | [] => Err
   | [_] => try_candidate fl g p removable [root]
   | _ :: others =>
-      (* the shared iterator `all_nodes` for pattern nodes without an op identifier is not modelled:
-         Err when more than one of the remaining output nodes has none *)
       let ids := map (fun q => match nth_error (gp_nodes p) q with Some np => np_opid np | None => None end) others in
-      if Nat.ltb 1 (length (filter (fun i => match i with None => true | Some _ => false end) ids)) then Err else
-      first_ok fl g p removable (product ([root] :: map (fun id => nodes_with_opid (g_nodes g) 0 id g) ids))
+      first_ok fl g p removable (product ([root] :: candidate_lists (g_nodes g) g ids false))
   end.
 
 (* ------------------------------------------------------------------ GraphPattern.commute *)
 Definition commutative_ops : list string :=
-  ["Add"; "Mul"; "And"; "Or"; "Xor"; "BitwiseAnd"; "BitwiseOr"; "BitwiseXor"; "Equal"; "Max"; "Mean"; "Min"; "Sum"].
+  ["Add"; "Mul"; "And"; "Or"; "Xor"; "BitwiseAnd"; "BitwiseOr"; "BitwiseXor"; "Equal"; "Max"; "Mean"; "Min"; "Sum"]%string.
 
+(* commute_node.  The pinned source offers the swap for every node whose op identifier is in the list and
+   then asserts `len(inputs) == 2` in NodePattern.clone (AssertionError while building the rule set); the
+   harness reports that separately, the model offers the swap for binary nodes only. *)
 Definition is_commutative (np : npat) : bool :=
   match np_opid np with
-  | Some (d, o) => String.eqb d "" && memb String.eqb o commutative_ops
+  | Some (d, o) => String.eqb d ""%string && memb String.eqb o commutative_ops && Nat.eqb (List.length (np_ins np)) 2
   | None => false
   end.
+
+(* NodePattern.clone: op is passed on as a pattern object, so the copy has no op identifier *)
+Definition clone_node (np : npat) (ins : list (option vpat)) : npat :=
+  mkNP (np_op np) (np_dom np) (np_attrs np) (np_other_attrs np) ins (np_other_ins np) (np_outs np) false.
 
 (* NodePattern.clone(swap=True): None = the assertion `len(inputs) == 2` fails *)
 Definition swap_node (np : npat) : option npat :=
   match np_ins np with
-  | [a; b] => Some (mkNP (np_op np) (np_dom np) (np_attrs np) (np_other_attrs np) [b; a] (np_other_ins np) (np_outs np))
+  | [a; b] => Some (clone_node np [b; a])
   | _ => None
   end.
 
@@ -458,11 +489,11 @@ Fixpoint apply_swaps (nodes : list npat) (sw : list bool) : option (list npat) :
   match nodes, sw with
   | [], _ => Some []
   | np :: t, s :: st =>
-      match (if s then swap_node np else Some np), apply_swaps t st with
+      match (if s then swap_node np else Some (clone_node np (np_ins np))), apply_swaps t st with
       | Some np', Some t' => Some (np' :: t')
       | _, _ => None
       end
-  | np :: t, [] => option_map (cons np) (apply_swaps t [])
+  | np :: t, [] => option_map (cons (clone_node np (np_ins np))) (apply_swaps t [])
   end.
 
 (* itertools.product([False(,True)] per node): the last node varies fastest, all-False first *)
@@ -479,11 +510,12 @@ Definition commute (p : gpat) : res (list gpat) :=
      match l with
      | [] => Ok []
      | sw :: t =>
-         match apply_swaps (gp_nodes p) sw, go t with
+         match (if existsb (fun b => b) sw then apply_swaps (gp_nodes p) sw else Some (gp_nodes p)), go t with
          | Some ns, Ok ps => Ok (mkGP ns (gp_inputs p) (gp_outs p) :: ps)
          | None, _ => Err
          | _, Err => Err
          | _, Fail => Fail
+         | _, Soft st => Soft st
          end
      end) (swap_lists (gp_nodes p)).
 
@@ -496,6 +528,7 @@ Fixpoint first_variant (fl : flags) (ps : list gpat) (i : nat) (g : hgraph) (roo
               | Ok m => Ok (i, m)
               | Fail => first_variant fl t (S i) g root removable
               | Err => Err
+              | Soft st => Soft st
               end
   end.
 
